@@ -372,10 +372,17 @@ func (m *ConnectMessage) Decode(src []byte) (int, error) {
 	}
 	total += n
 
+	// The packet ends where the fixed header says it ends.
+	src = src[:total+int(m.remlen)]
+
 	if n, err = m.decodeMessage(src[total:]); err != nil {
 		return total + n, err
 	}
 	total += n
+
+	if total != len(src) {
+		return total, fmt.Errorf("connect/Decode: Remaining length (%d) does not match the packet", m.remlen)
+	}
 
 	m.dirty = false
 
